@@ -59,6 +59,10 @@ def build(case):
             blob += peer.enc_frame(8, peer.enc_close_payload(1000, 'srv'))
         elif what == 'text':
             blob += peer.enc_frame(1, b'srv-text')
+        elif what == 'bad_opcode':
+            blob += peer.enc_frame(3, b'reserved')      # -> Close 1002
+        elif what == 'bad_utf8':
+            blob += peer.enc_frame(1, b'\xff\xfe')      # critical: no Close
     if blob:
         steps.append(S.send(blob, after=case.get('loop_after', 0)))
     steps.append(S.eof(after=case.get('eof_after', 6000000)))
